@@ -122,63 +122,36 @@ Theorem C06_conv_correct : forall k2 x, is64 k2 = false -> conv_nn k2 (Fin x) = 
 Proof. exact conv_nn_correct. Qed.
 Print Assumptions C06_conv_correct.
 
-(* ---- quotient: truncated division, panic on zero; the int8/int16 MinInt / -1 defect ---------
-   Full statement (holds for a variant with v_quo = true, e.g. after the repair):            *)
-Definition C06_quo_full_statement := quo_full_statement.
-Theorem C06_quo_correct_partial : forall V k x y, is64 k = false -> in_range k x -> in_range k y ->
-  (v_quo V = true \/ small_signed k = false \/ ~ (x = kmin k /\ y = -1)) ->
-  bin32 V k Quo (Fin x) (Fin y) = embed (go_bin k Quo x y).
-Proof. exact quo32_correct. Qed.
-Print Assumptions C06_quo_correct_partial.
-Theorem C06_quo_repaired_full : forall V, v_quo V = true -> C06_quo_full_statement V.
+(* ---- EVERY binary and unary operator of the 9 kinds of at most 32 bits, for the code under test
+        ([current] = the variant probed in this run; all repairs present), all in-range operands, no exclusions:
+        wrap-around, truncated division and remainder, panic exactly on a zero divisor, no -0, no inexact
+        intermediate.  (History: with v_quo/v_rem/v_neg = false these failed at int8/int16 MinInt / -1,
+        at zero remainders of negative dividends and at -MinInt / -0; Proofs/C06_Div32.v and C06_Bits32.v keep
+        the refutations for those variants.) *)
+Theorem C06_binop_correct : forall k o x y, is64 k = false -> in_range k x -> in_range k y ->
+  bin32 current k o (Fin x) (Fin y) = embed (go_bin k o x y).
+Proof. exact bin32_current_correct. Qed.
+Print Assumptions C06_binop_correct.
+Theorem C06_unop_correct : forall k u x, is64 k = false -> in_range k x ->
+  un32 current k u (Fin x) = Ret (Fin (go_un k u x)).
+Proof. exact un32_current_correct. Qed.
+Print Assumptions C06_unop_correct.
+Theorem C06_binop_result_in_range : forall k o x y v, in_range k x -> in_range k y -> go_bin k o x y = GVal v -> in_range k v.
+Proof. exact go_bin_in_range. Qed.
+Print Assumptions C06_binop_result_in_range.
+Theorem C06_unop_result_in_range : forall k u x, in_range k (go_un k u x).
+Proof. exact go_un_in_range. Qed.
+Print Assumptions C06_unop_result_in_range.
+(* the same for ANY variant that has the respective repair (so the statements do not silently depend on [current]) *)
+Theorem C06_quo_repaired_full : forall V, v_quo V = true -> quo_full_statement V.
 Proof. exact quo_repaired_full. Qed.
 Print Assumptions C06_quo_repaired_full.
-Theorem C06_quo_int8_refuted : forall V, v_quo V = false ->
-  bin32 V Int8 Quo (Fin (-128)) (Fin (-1)) = Ret (Fin 128) /\ go_bin Int8 Quo (-128) (-1) = GVal (-128).
-Proof. exact quo_int8_refuted. Qed.
-Print Assumptions C06_quo_int8_refuted.
-Theorem C06_quo_int16_refuted : forall V, v_quo V = false ->
-  bin32 V Int16 Quo (Fin (-32768)) (Fin (-1)) = Ret (Fin 32768) /\ go_bin Int16 Quo (-32768) (-1) = GVal (-32768).
-Proof. exact quo_int16_refuted. Qed.
-Print Assumptions C06_quo_int16_refuted.
-
-(* ---- remainder: exact value always; the sign of a zero result (-0 leaks into float64(r)) ---- *)
-Definition C06_rem_full_statement := rem_full_statement.
-Theorem C06_rem_correct_partial : forall V k x y, is64 k = false -> in_range k x -> in_range k y ->
-  (v_rem V = true \/ ~ (x < 0 /\ Z.rem x y = 0)) ->
-  bin32 V k Rem (Fin x) (Fin y) = embed (go_bin k Rem x y).
-Proof. exact rem32_correct. Qed.
-Print Assumptions C06_rem_correct_partial.
-Theorem C06_rem_repaired_full : forall V, v_rem V = true -> C06_rem_full_statement V.
+Theorem C06_rem_repaired_full : forall V, v_rem V = true -> rem_full_statement V.
 Proof. exact rem_repaired_full. Qed.
 Print Assumptions C06_rem_repaired_full.
-Theorem C06_rem_value_correct : forall V k x y, is64 k = false -> in_range k x -> in_range k y ->
-  res_value (bin32 V k Rem (Fin x) (Fin y)) = Some (go_bin k Rem x y).
-Proof. exact rem32_value_correct. Qed.
-Print Assumptions C06_rem_value_correct.
-Theorem C06_rem_negative_zero_refuted : forall V, v_rem V = false ->
-  bin32 V Int32 Rem (Fin (-4)) (Fin 2) = Ret NZ /\ go_bin Int32 Rem (-4) 2 = GVal 0.
-Proof. exact rem_refuted. Qed.
-Print Assumptions C06_rem_negative_zero_refuted.
-
-(* ---- unary minus: the MinInt and -0 defects of signed kinds ---------------------------------- *)
-Definition C06_neg_full_statement := neg_full_statement.
-Theorem C06_neg_correct_partial : forall V k x, is64 k = false -> in_range k x ->
-  (v_neg V = true \/ signed k = false \/ (x <> 0 /\ x <> kmin k)) ->
-  un32 V k Neg (Fin x) = Ret (Fin (go_un k Neg x)).
-Proof. exact neg32_correct. Qed.
-Print Assumptions C06_neg_correct_partial.
-Theorem C06_neg_repaired_full : forall V, v_neg V = true -> C06_neg_full_statement V.
+Theorem C06_neg_repaired_full : forall V, v_neg V = true -> neg_full_statement V.
 Proof. exact neg_repaired_full. Qed.
 Print Assumptions C06_neg_repaired_full.
-Theorem C06_neg_minint_refuted : forall V, v_neg V = false ->
-  un32 V Int32 Neg (Fin (-2147483648)) = Ret (Fin 2147483648) /\ go_un Int32 Neg (-2147483648) = -2147483648.
-Proof. exact neg_minint_refuted. Qed.
-Print Assumptions C06_neg_minint_refuted.
-Theorem C06_neg_zero_refuted : forall V, v_neg V = false -> un32 V Int32 Neg (Fin 0) = Ret NZ.
-Proof. exact neg_zero_refuted. Qed.
-Print Assumptions C06_neg_zero_refuted.
-
 
 (* ---- shifts by ANY non-negative count (variable count; constant count c, also beyond the sampled ones) ---- *)
 Theorem C06_shl_var_correct : forall k x n, is64 k = false -> 0 <= n ->
@@ -189,17 +162,16 @@ Theorem C06_shr_var_correct : forall k x n, is64 k = false -> in_range k x -> 0 
   shv32 k Shr (Fin x) (Fin n) = Ret (Fin (go_shift k Shr x n)).
 Proof. exact shr32_var_correct. Qed.
 Print Assumptions C06_shr_var_correct.
-Definition C06_shift_const_full_statement (V : variant) : Prop :=
-  forall k s c x, is64 k = false -> in_range k x -> 0 <= c -> shc32 V k s c (Fin x) = Ret (Fin (go_shift k s x c)).
-Theorem C06_shift_const_correct_partial : forall V k s c x, is64 k = false -> in_range k x -> 0 <= c ->
-  (s = Shl \/ c < 32 \/ signed k = false \/ v_shrc V = true \/ 0 <= x) ->
-  shc32 V k s c (Fin x) = Ret (Fin (go_shift k s x c)).
-Proof. exact shc32_correct. Qed.
-Print Assumptions C06_shift_const_correct_partial.
-Theorem C06_shr_const_refuted : forall V, v_shrc V = false ->
-  shc32 V Int32 Shr 40 (Fin (-5)) = Ret (Fin 0) /\ go_shift Int32 Shr (-5) 40 = -1.
-Proof. exact shr_const_refuted. Qed.
-Print Assumptions C06_shr_const_refuted.
+Theorem C06_shift_const_correct : forall k s c x, is64 k = false -> in_range k x -> 0 <= c ->
+  shc32 current k s c (Fin x) = Ret (Fin (go_shift k s x c)).
+Proof. exact shc_current_full. Qed.
+Print Assumptions C06_shift_const_correct.
+Theorem C06_shift_const_repaired_full : forall V, v_shrc V = true -> shc_full_statement V.
+Proof. exact shc_repaired_full. Qed.
+Print Assumptions C06_shift_const_repaired_full.
+Theorem C06_shift_result_in_range : forall k s x n, in_range k x -> 0 <= n -> in_range k (go_shift k s x n).
+Proof. exact go_shift_in_range. Qed.
+Print Assumptions C06_shift_result_in_range.
 Theorem C06_shift_results_in_range : forall k x n, in_range k x -> 0 <= n -> in_range k (Z.shiftr x n).
 Proof. exact shiftr_in_range. Qed.
 Print Assumptions C06_shift_results_in_range.
@@ -239,20 +211,6 @@ Theorem C06_conv_64to64_correct : forall V k1 k2 x, is64 k1 = true -> is64 k2 = 
   conv_oo V k2 (enc64 k1 x) = Ret (enc64 k2 (go_conv k2 x)).
 Proof. exact conv_oo_correct. Qed.
 Print Assumptions C06_conv_64to64_correct.
-
-(* ---- the tree under test: which statements hold for the probed variant ---------------------- *)
-Theorem C06_current_quo : status (v_quo current) (C06_quo_full_statement current)
-  (bin32 current Int8 Quo (Fin (-128)) (Fin (-1)) = Ret (Fin 128)).
-Proof. exact current_quo. Qed.
-Print Assumptions C06_current_quo.
-Theorem C06_current_rem : status (v_rem current) (C06_rem_full_statement current)
-  (bin32 current Int32 Rem (Fin (-4)) (Fin 2) = Ret NZ).
-Proof. exact current_rem. Qed.
-Print Assumptions C06_current_rem.
-Theorem C06_current_neg : status (v_neg current) (C06_neg_full_statement current)
-  (un32 current Int32 Neg (Fin (-2147483648)) = Ret (Fin 2147483648)).
-Proof. exact current_neg. Qed.
-Print Assumptions C06_current_neg.
 
 (* Non-vacuity: concrete in-range operands through the emitted (regenerated) templates. *)
 Example C06_nonvacuous :
